@@ -60,6 +60,7 @@ fn main() {
         }
         "drive" => drive(&cfgv, wc, &mut out),
         "detector" => detector(&cfgv, wc, &mut out),
+        "fuzz" => fuzz(&cfgv, wc, &mut out),
         "trace" => {
             // executes given behaviours and writes the recorded real trace (Reset-separated)
             let stdin = std::io::stdin();
@@ -343,5 +344,74 @@ fn detector(cfgv: &Value, wc: WorldCfg, out: &mut impl Write) {
         let bound = (wc.fd.phi * (wc.fd.max_interval.max(wc.fd.initial) as f64)).ceil() as u64 + 1;
         emit(&mut run, &mut steps, json!({"a": "Advance", "d": bound}), out);
         emit(&mut run, &mut steps, json!({"a": "Liveness", "n": "n1"}), out);
+    }
+}
+
+/// C09 byte-level driver: honest traffic produces valid datagrams; random, bit-flipped, truncated,
+/// extended and spliced variants of them are delivered (interleaved with honest steps) exactly as
+/// the UDP socket would deliver them: decode, then process. Every delivery is logged with the node's
+/// projected state, whether the real decoder and the independent codec accepted the bytes, and any
+/// caught panic.
+fn fuzz(cfgv: &Value, wc: WorldCfg, out: &mut impl Write) {
+    let seed = num(cfgv, "seed", 1);
+    let ntraces = num(cfgv, "traces", 10);
+    let len = num(cfgv, "len", 120) as usize;
+    let keys = strs(cfgv, "keys");
+    let mut rng = StdRng::seed_from_u64(seed);
+    for t in 0..ntraces {
+        let mut run = Run::new(wc.clone());
+        writeln!(out, "{}", json!({"a": "Reset", "trace": t})).unwrap();
+        let nodes = wc.nodes.clone();
+        let mut steps: Vec<Value> = Vec::new();
+        let mut pool: Vec<Vec<u8>> = Vec::new();
+        let mut inflight: Vec<usize> = Vec::new();
+        let mut vc = 0;
+        for _ in 0..len {
+            let n = nodes.choose(&mut rng).unwrap().clone();
+            let r = rng.random_range(0..100);
+            if r < 55 || pool.is_empty() {
+                // honest step
+                let st = match rng.random_range(0..10) {
+                    0..=2 => { vc += 1; json!({"a": "Set", "n": n, "k": keys.choose(&mut rng).unwrap(), "v": format!("v{vc}")}) }
+                    3 => json!({"a": "Delete", "n": n, "k": keys.choose(&mut rng).unwrap(), "v": ""}),
+                    4..=5 => { let p = nodes.choose(&mut rng).unwrap().clone(); if p == n { json!({"a": "Nop"}) } else { json!({"a": "CreateSyn", "n": n, "to": p}) } }
+                    6..=8 => { if inflight.is_empty() { json!({"a": "Nop"}) } else { let m = inflight.remove(rng.random_range(0..inflight.len())); let dst = run.made[m].as_ref().unwrap().dst.clone(); if nodes.contains(&dst) { json!({"a": "Process", "n": dst, "m": m}) } else { json!({"a": "Nop"}) } } }
+                    _ => { let what = ["Gc", "Liveness", "Heartbeat"][rng.random_range(0..3)]; json!({"a": what, "n": n}) }
+                };
+                steps.push(st);
+                let i = steps.len() - 1;
+                run.step(&steps, i);
+                if let Some(m) = &run.made[i] { pool.push(m.bytes.clone()); inflight.push(i); }
+                let mut ev = strip_nulls(&run.events[i]);
+                ev["i"] = json!(i);
+                let a = ev["a"].as_str().unwrap_or("").to_string();
+                if a != "Nop" && ev.get("skipped").is_none() { writeln!(out, "{}", ev).unwrap(); }
+            } else {
+                // hostile datagram
+                let mut b = pool.choose(&mut rng).unwrap().clone();
+                let kind = rng.random_range(0..9);
+                match kind {
+                    0 => { let k = rng.random_range(1..4); for _ in 0..k { if !b.is_empty() { let p = rng.random_range(0..b.len()); b[p] ^= 1 << rng.random_range(0..8); } } }
+                    1 => { let l = rng.random_range(0..=b.len()); b.truncate(l); }
+                    2 => { let extra = rng.random_range(1..64); for _ in 0..extra { b.push(rng.random()); } }
+                    3 => { let l = rng.random_range(0..200); b = (0..l).map(|_| rng.random()).collect(); }
+                    4 => { let other = pool.choose(&mut rng).unwrap(); let cut = rng.random_range(0..=b.len()); let cut2 = rng.random_range(0..=other.len()); b.truncate(cut); b.extend_from_slice(&other[cut2..]); }
+                    5 => { if b.len() > 6 { let p = rng.random_range(4..b.len() - 1); b[p] = 0xff; b[p + 1] = 0xff; } }
+                    6 => { if b.len() > 8 { let p = rng.random_range(4..b.len()); let l = rng.random_range(1..(b.len() - p).min(16) + 1); for q in p..p + l { b[q] = 0; } } }
+                    7 => { // maximal datagram of junk behind a valid header
+                        b.truncate(4.min(b.len())); while b.len() < 65507 { b.push(rng.random()); } }
+                    _ => {}
+                }
+                let codec_ok = vharness::codec::decode(&b).is_ok();
+                let (decoded, reply, p) = run.world.deliver(&n, &b);
+                if let Some(rb) = reply { pool.push(rb); }
+                let post = run.world.project(&n);
+                let mut ev = json!({"a": "Recv", "n": n, "len": b.len(), "kind": kind, "decoded": decoded,
+                    "codec_decoded": codec_ok, "clock": run.world.now_ticks(), "post": post});
+                if let Some(pp) = p { ev["panic"] = json!(pp); }
+                if b.len() <= 300 { ev["hex"] = json!(b.iter().map(|x| format!("{x:02x}")).collect::<String>()); }
+                writeln!(out, "{}", ev).unwrap();
+            }
+        }
     }
 }
